@@ -645,6 +645,40 @@ def stress(ck, tier):
     return out
 
 
+# --------------------------------------------------------------------------- EXT engine: MediaRelay fan-out
+
+def relay_engine(ck, tier, deviations=()):
+    """Relay.tla (EXT): invariants on the model; every (state, operation) edge replayed on a real MediaRelay."""
+    dev = "{" + ", ".join(f'"{d}"' for d in deviations) + "}"
+    cfg = os.path.join(vlib.SPEC, f"MC_Relay.{os.getpid()}.gen.cfg")
+    with open(cfg, "w") as f:
+        f.write(f"""SPECIFICATION Spec
+CONSTANTS
+  Subs = {{1, 2}}
+  MaxSend = {3 if tier == "quick" else 4}
+  SrcCap = 2
+  RCap = 2
+  MaxLen = {9 if tier == "quick" else 11}
+  Deviations = {dev}
+VIEW view
+INVARIANTS {"Ordered" if deviations else "NoPanic RelayAlive Ordered"}
+ACTION_CONSTRAINT EmitEdge
+CHECK_DEADLOCK FALSE
+""")
+    cases = os.path.join(ck.dir, "relay_cases.ndjson")
+    res = vlib.tlc("MC_Relay", os.path.basename(cfg), timeout=600, tags=("EDGE",), sinks={"EDGE": cases}, tag="MC_Relay",
+                   heap="1g")
+    os.remove(cfg)
+    out = os.path.join(ck.dir, "relay_out.ndjson")
+    p = vlib.run_bin("relay", [cases, out], timeout=900)
+    if p.returncode != 0:
+        raise vlib.ToolError(f"relay replayer failed rc={p.returncode}: {p.stderr[-1500:]}")
+    rows = vlib.read_ndjson(out)
+    os.remove(cases)
+    os.remove(out)
+    return res, rows
+
+
 class DirOnly:
     """what one_config needs from a Check, picklable"""
     def __init__(self, d):
@@ -688,7 +722,7 @@ def one_config(ck, k, tier, shards):
 
 def run(tier):
     ck = vlib.Check(PID, tier)
-    tb = vlib.build_harness(["ring"])
+    tb = vlib.build_harness(["ring", "relay"])
     vlib.log(f"[C20] harness built in {tb:.0f}s")
     shards = 6 if tier == "thorough" else 4
     cfgs = CFG[tier]
@@ -707,9 +741,20 @@ def run(tier):
         pfuts = [(dev, k, inv, name, ex.submit(probe_witness, ck, dev, k, inv, name)) for dev, k, inv, name in PROBES]
         lfuts = [ex.submit(liveness, k, tier) for k in live_cfgs]
         sfut = ex.submit(stress, ck, tier)
+        rfut = ex.submit(relay_engine, ck, tier)
         mfuts = [ex.submit(mc_only, k) for k in CFG.get(tier + "_mc_only", [])]
         done = [futs[label_of(k)].result() for k in cfgs]
         st_out = sfut.result()
+        rres, rrows = rfut.result()
+        vlib.tlc_ok(rres, "relay (EXT)")
+        ck.add_tlc(rres, "EXT MediaRelay: invariants + edges")
+        rdiv = [r for r in rrows if r.get("type") == "divergence"]
+        for r in rdiv[:5]:
+            # beyond the listed property: DRIFT, never VIOLATION
+            ck.drift.append({"rule": "EXT", "engine": "relay", "op": r["op"], "expected": r["expected"], "observed": r["observed"],
+                             "ops": r["case"]["ops"]})
+        ck.cov["ext_relay"] = {"cases": sum(r.get("cases", 0) for r in rrows if r.get("type") == "summary"),
+                               "divergences": len(rdiv)}
         for f in mfuts:
             lab, res = f.result()
             vlib.tlc_ok(res, "model only " + lab)
@@ -849,6 +894,16 @@ def selftest():
     os.remove(cfg)
     good = any("CloseLeadsToEos" in e or "Temporal" in e for e in res["errors"])
     print(f"selftest: Deviations={{NotifiedAfterCheck}} violates liveness CloseLeadsToEos: {good}")
+    ok &= good
+    # EXT engine: the pinned relay (feedback receiver not handed back) violates NoPanic on the model
+    cfg = os.path.join(vlib.SPEC, f"MC_Relay_selftest.{os.getpid()}.gen.cfg")
+    with open(cfg, "w") as f:
+        f.write('SPECIFICATION Spec\nCONSTANTS\n  Subs = {1, 2}\n  MaxSend = 3\n  SrcCap = 2\n  RCap = 2\n  MaxLen = 9\n'
+                '  Deviations = {"FeedbackRxNotRestored"}\nVIEW view\nINVARIANTS NoPanic\nACTION_CONSTRAINT NoEmit\nCHECK_DEADLOCK FALSE\n')
+    res = vlib.tlc("MC_Relay", os.path.basename(cfg), workers=2, timeout=300, tag="MC_Relay_selftest", heap="1g")
+    os.remove(cfg)
+    good = any("NoPanic" in e for e in res["errors"])
+    print(f"selftest: Relay Deviations={{FeedbackRxNotRestored}} violates NoPanic: {good}")
     ok &= good
     # non-vacuity: the situations the rules speak about are reachable in the quick configurations
     nv = {"NV_DropOldest": K(1, "ss"), "NV_TrylockFails": K(1, "ss"), "NV_WouldBlock": K(1, "s", "t", own=True),
